@@ -5700,7 +5700,11 @@ public:
     template<typename T, typename Tag>
     SBEPP_CPP14_CONSTEXPR bool on_data(T d, Tag) noexcept
     {
-        return !validate_and_subtract(sbepp::size_bytes(d));
+        // validate the length prefix and the payload separately, for a hostile
+        // length value their sum (`size_bytes(d)`) can wrap around
+        return !(
+            validate_and_subtract(sizeof(typename T::size_type))
+            && validate_and_subtract(d.size()));
     }
 
     // ignore them all because we validate `blockLength`
